@@ -53,6 +53,8 @@ def change_one(rng, args, info):
         s = Fraction(a[i + 3])
         a2 = list(a)
         a2[i + 3] = q(s + 1 if s < 59 else s - 1)
+        if Fraction(a[i + 1]) == 24:
+            a2[i + 1:i + 4] = ["23", "59", "59"]       # 24:00:01 does not exist
         return args.replace(info["anchor"], " ".join(a2), 1), "anchor"
     return None, None
 
@@ -71,6 +73,20 @@ def generate(rng, tier):
                                "reps:" + ("inf" if info["n"] is None else "1" if info["n"] == 1 else "n")],
                               md=md, fam="A", shift=d, **info))
         elif fam == "E":
+            if rng.random() < 0.12 and info["fmt"] != 1:
+                # anchors one year apart in years whose integers collide under CPython's hash (hash(-1) == hash(-2)),
+                # and around year 0: equality must compare the points, not a digest of them
+                ya, yb = rng.choice([(-1, -2), (-2, -1), (-1, 0), (0, 1), (-1, -2)])
+                a = info["anchor"].split()
+                a1, a2 = list(a), list(a)
+                a1[1], a2[1] = str(ya), str(yb)
+                base = args.replace(info["anchor"], " ".join(a1), 1)
+                other = args.replace(info["anchor"], " ".join(a2), 1)
+                cases.append(Case(["req %s %s %s" % (md, base, other), "rmake %s %s" % (md, base), "rmake %s %s" % (md, other),
+                                   "rechash %s %s" % (md, base), "rechash %s %s" % (md, other)],
+                                  ["equality", "mode:" + md, "diff:year-apart"], md=md, fam="E", want="0",
+                                  **dict(info, anchor=" ".join(a1))))
+                continue
             if rng.random() < 0.5:
                 other, what = change_one(rng, args, info)
                 want = "0"
@@ -123,6 +139,12 @@ def judge(c):
         for l, x, y in zip(c.lines[1:], I[1:], M):
             if y != "UNMODELLED" and not close_rec(x, y):
                 res.append(("disagree", "%s: implementation %r, model %r" % (l, x, y)))
+        return res
+    if fam == "E" and (I[1].startswith("ERR") or I[2].startswith("ERR")):
+        if I[1].startswith("ERR") and M[1].startswith("ERR") or I[2].startswith("ERR") and M[2].startswith("ERR"):
+            return res
+        # an anchor the constructor refuses (the line protocol does not validate points on the model side)
+        c.meta["skipped"] = True
         return res
     for l, x, y in zip(c.lines, I, M[:len(c.lines)]):
         if x != y and not (l.startswith("rechash") and close_rec(x, y)):
